@@ -166,6 +166,11 @@ def run_property(pid, tier, seed):
             for fn, e in summ["errors"].items():
                 if e["kind"] == "NotImplementedError":
                     continue
+                if e["kind"] == "ProbeError":
+                    # not a failing call: a proof obligation organised around an intermediate value can no longer be stated
+                    if relevant(fn):
+                        ctx.fail("extract:" + fn, "probe-missing", e)
+                    continue
                 if relevant(fn):
                     ctx.fail("extract:" + fn, "raises", e)
                     ctx.replays.append({"obligation": "extract:" + fn, "found": True,
